@@ -132,7 +132,7 @@ def describe(eng, seg, frame_events):
                 return ("decimal-of", tuple(r0[2]))
             return ("decimal-of", "?")
         if v[1][0] in ("K",) or (v[1][0] == "P" and isinstance(v[1][1], tuple) and v[1][1] and v[1][1][0] in ("join", "phi")):
-            if any(base_name(x).endswith("OptionType::as_str") for x in frame_events):
+            if any(base_name(x).endswith("OptionType::as_str") for x in eng.events):
                 return ("option-name",)
         if star is not None and star[0] == "t" and isinstance(star[1], tuple) and star[1][0] == "init":
             return ("field", tuple(star[1][2]))
@@ -191,8 +191,8 @@ def check(world, tier):
     maximal = []
     for ent in eng.layout_log:
         (node, fid, root, path, segs) = ent
-        if any(o[1] == fid and o[2] == root and o[3] == path and len(o[4]) > len(segs) and o[4][:len(segs)] == segs for o in eng.layout_log):
-            continue
+        if any(o[2] == root and o[3] == path and len(o[4]) > len(segs) and o[4][:len(segs)] == segs for o in eng.layout_log):
+            continue    # (whichever function performed the later append: helpers that take `&mut Vec<u8>` build the same vector)
         if ent not in maximal:
             maximal.append(ent)
     for (node, fid, root, path, segs) in maximal:
@@ -244,7 +244,11 @@ def check(world, tier):
         if vn in ("Rrq", "Wrq", "Oack"):
             accs = [d_ for fid, dl in layouts.items() for (_, d_) in dl if d_ and d_[0][0] == "accumulator"]
             optl = [list(d_) for (_, d_) in opt_layouts]
-            is_opt_append = lambda d_: d_ == [("accumulator",), ("option-bytes",)] or (d_[:1] == [("accumulator",)] and d_[1:] in optl)
+            def is_opt_append(d_):
+                if d_ == [("accumulator",), ("option-bytes",)] or (d_[:1] == [("accumulator",)] and d_[1:] in optl):
+                    return True
+                # the option written in place: name NUL decimal(value) NUL after what has been built so far
+                return len(d_) == 5 and d_[0] == ("accumulator",) and d_[1] == ("option-name",) and d_[2] == ("zero",) and d_[3][0] == "decimal-of" and d_[4] == ("zero",)
             b.ob(bool(accs) and all(is_opt_append(d_) for d_ in accs), "options-appended-%s" % vn,
                  "options are not appended one by one after the fixed part (found %s)" % accs[:2], nontrivial=False)
     # Oack starts with its opcode
@@ -260,6 +264,11 @@ def check(world, tier):
                     if x[0] == "i" and x[1] == (RFC_OPCODES["Oack"], ()):
                         oack_ok = True
     b.ob(oack_ok, "layout-Oack", "an OACK does not start with the big-endian opcode 6", sample={"kind": "Oack", "starts with": "be(6)"})
+    # options written in place (after an accumulator segment) count as option layouts too
+    for fid_, dl in layouts.items():
+        for (loc_, d_) in dl:
+            if len(d_) >= 2 and d_[0] == ("accumulator",) and d_[1] == ("option-name",):
+                opt_layouts.append((loc_, list(d_[1:])))
     b.need(len(opt_layouts), 1, "option serialisation")
     for (loc_, desc) in opt_layouts:
         fo = [f["name"] for f in prog.adts[TRANSFEROPTION]["variants"][0]["fields"]]
